@@ -539,6 +539,8 @@ def risky_edit(rnd, spec, objs=None):
             choices += ["fix_server", "fix_server"]
     if storages and objs is not None:
         choices += ["fix_storage"]
+    if storages and jobs:
+        choices += ["base_storage_short"]
     if jobs:
         choices += ["delete_data", "zero_duration"]
     if ups:
@@ -569,8 +571,24 @@ def risky_edit(rnd, spec, objs=None):
         mx = float(np.max(np.asarray(live.value["value"].values._data, dtype=float)))
         # (beyond 1e6 instances the need is only known to a few ulps: leave a relative margin so that a fresh build agrees)
         need = float(np.ceil(mx)) if mx < 1e6 else float(np.ceil(mx * (1 + 1e-9)))
+        if need >= 2 and rnd.random() < 0.35:
+            # the count itself is given one short of the need: the failing edit does not recompute the need it is compared with
+            return {"op": "set", "obj": n, "attr": "fixed_nb_of_instances", "value": ["q", need - 1, "dimensionless"], "kind": "risky_" + k + "_short"}
         return {"op": "set", "obj": n, "attr": "fixed_nb_of_instances", "value": ["q", need + rnd.choice([0, 0, 1]), "dimensionless"],
                 "kind": "risky_" + k}
+    if k == "base_storage_short":
+        # a storage with a deleting job lives on its initial need: lowering that need alone drives the ledger negative (the hourly
+        # deltas it is added to are not recomputed by this edit)
+        cands = []
+        for st in storages:
+            srv = [x for x in servers if O[x]["params"]["storage"][1] == st]
+            dels = [j for j in jobs if O[j]["params"]["server"][1] in srv and O[j]["params"]["data_stored"][1] < 0]
+            if dels and O[st]["params"]["base_storage_need"][1] > 0:
+                cands.append(st)
+        if not cands:
+            return None
+        st = rnd.choice(cands)
+        return {"op": "set", "obj": st, "attr": "base_storage_need", "value": ["q", 0, "TB"], "kind": "risky_" + k}
     if k == "zero_duration":
         # fails inside a per-pattern dict update, after the fresh (empty) dict has been installed
         j = rnd.choice(jobs)
